@@ -48,7 +48,7 @@ class C09(Prop):
                 "C09.Old.old_format_loses_grouping", "C09.Old.old_quote_truncates", "C09.Old.old_extra_not_normalised",
                 "MkParse.parse_print", "MkFmt.fmtToksL_true", "MkFmt.fOfL_nfTop", "MkFmt.nfTop_idem",
                 "C09.same_marker_of_same_parens", "C09.eq_hash_layout_independent", "C09.extra_spelling_layout_independent",
-                "C09.map_norm_extra", "C09.mkMarker_lex", "C09.flat_norm", "C07.marker_parse_render_lex", "MkLay.parse_renderE"]
+                "C09.map_norm_extra", "C09.mkMarker_lex", "C09.flat_norm", "C09.nf_nfP", "C09.str_nfP", "C07.marker_parse_render_lex", "MkLay.parse_renderE"]
     rule = ("C07 formulas with literals over the full PEP 508 string alphabet (both quote characters, '#', ';', brackets), "
             "extra comparisons in every position and on either side, redundant parentheses to depth 4 (incl. doubled "
             "parentheses around compound operands), two independent spellings per formula (white space, quotes, outer "
@@ -58,11 +58,10 @@ class C09(Prop):
                "for the literals at hand are computed on the real code and passed as data",
                "ast.literal_eval of a QUOTED_STRING token as modelled by Mk.pyStrLit (escape decoding; \\N{...} not modelled)",
                "hash() as an uninterpreted function of (class name, str)"]
-    partial = ["equality/hash of differently written markers is proved at character level for layouts that differ in white space, "
-               "quote style, variable spelling, extra-name spelling and redundant OUTER parentheses (eq_hash_layout_independent, "
-               "extra_spelling_layout_independent; same parentheses => literally the same marker: same_marker_of_same_parens); "
-               "redundant parentheses around a single comparison or doubled parentheses inside the expression are covered at token "
-               "level only (nfTop: format_parses_back / outer_parentheses_dropped) plus the laws",
+    partial = ["equality/hash of differently written markers is proved at character level (eq_hash_layout_independent, "
+               "extra_spelling_layout_independent) for any two layouts of one formula that differ in white space, quote style, "
+               "variable spelling, extra-name spelling and redundant parentheses (outer, around single comparisons, doubled); "
+               "literals with backslash/CR/LF/NUL/surrogates and texts ending in a newline are outside these theorems",
                "the character-level round trip (str_roundtrip_char, marker_roundtrip_char) assumes canonical comparisons: "
                "variables among the twelve canonical names (what process_env_var produces: one_spelling_per_variable), the ten "
                "operators, literals free of backslash/CR/LF/NUL/surrogates and not containing both quote characters; "
